@@ -277,7 +277,7 @@ func decodeFullCase(ps *prefixState, in []byte, c *caseResult) (map[string]any, 
 	var err error
 	pan := func() (p any) {
 		defer func() { p = recover() }()
-		hpack.VerifC18RestoreDecoder(auxRunner.d, ps.dec)
+		restoreDecoder(auxRunner.d, ps.dec)
 		fs, err = auxRunner.d.DecodeFull(in)
 		return nil
 	}()
